@@ -13,7 +13,7 @@ if only:
         corpus[os.path.basename(f)[:-5]] = json.load(open(f))
 for d in sorted(glob.glob("/verif/seeded/*/")):
     name = os.path.basename(d.rstrip("/"))
-    if only and not (len(name) > 4 and name[4] == "-" and name[3] in only):
+    if only and not (len(name) >= 4 and name[3] in only and (len(name) == 4 or name[4] == "-")):
         continue
     if not os.path.exists(d + "meta.json") or not os.path.exists(d + "patch.diff"):
         continue
